@@ -15,6 +15,52 @@ type ruleRow struct {
 	derefUnchecked        bool
 }
 
+// per emitter and rule: the spec types the case body compares `specType` with (`specType == "x"`), and the labels
+// of a `switch specType` inside it
+type guardRow struct {
+	emitter, rule string
+	eq, sw        []string
+}
+
+var guardRows []guardRow
+
+func collectGuards(emitter, rule string, body []ast.Stmt) {
+	eq := map[string]bool{}
+	sw := map[string]bool{}
+	for _, st := range body {
+		ast.Inspect(st, func(m ast.Node) bool {
+			switch x := m.(type) {
+			case *ast.BinaryExpr:
+				if x.Op.String() == "==" && exprStr(x.X) == "specType" {
+					if v, ok := strLit(x.Y); ok {
+						eq[v] = true
+					}
+				}
+			case *ast.SwitchStmt:
+				if exprStr(x.Tag) == "specType" {
+					for _, c := range x.Body.List {
+						for _, lab := range c.(*ast.CaseClause).List {
+							if v, ok := strLit(lab); ok {
+								sw[v] = true
+							}
+						}
+					}
+				}
+			}
+			return true
+		})
+	}
+	keys := func(m map[string]bool) []string {
+		out := []string{}
+		for k := range m {
+			out = append(out, k)
+		}
+		sort.Strings(out)
+		return out
+	}
+	guardRows = append(guardRows, guardRow{emitter, rule, keys(eq), keys(sw)})
+}
+
 func extractRuleRows(file, fn, emitter string) ([]ruleRow, error) {
 	_, f, err := parseGoFile(file)
 	if err != nil {
@@ -39,6 +85,7 @@ func extractRuleRows(file, fn, emitter string) ([]ruleRow, error) {
 			cc := c.(*ast.CaseClause)
 			for _, lab := range cc.List {
 				rule, _ := strLit(lab)
+				collectGuards(emitter, rule, cc.Body)
 				// parser calls and the identifiers bound to their results
 				type pc struct {
 					parser string
@@ -160,6 +207,7 @@ func hasNilValueGuard(file, fn string) bool {
 }
 
 func extractValidationRules() (string, error) {
+	guardRows = nil
 	r30, err := extractRuleRows("generator/swagen/swagen30/validatation_converter.go", "BuildSchemaValidation", "3.0")
 	if err != nil {
 		return "", err
@@ -184,6 +232,28 @@ func extractValidationRules() (string, error) {
 			sep = ""
 		}
 		sb.WriteString(fmt.Sprintf("  (%s, %s, %s, %s)%s\n", leanStr(r.emitter), leanStr(r.rule), leanStr(r.parser), leanBool(r.derefUnchecked), sep))
+	}
+	sb.WriteString("]\n/-- (emitter, rule, the types the case compares `specType` with, the labels of a `switch specType` in it) -/\n")
+	sb.WriteString("def validationGuards : List (String × String × List String × List String) := [\n")
+	sort.SliceStable(guardRows, func(i, j int) bool {
+		if guardRows[i].emitter != guardRows[j].emitter {
+			return guardRows[i].emitter < guardRows[j].emitter
+		}
+		return guardRows[i].rule < guardRows[j].rule
+	})
+	lst := func(xs []string) string {
+		q := []string{}
+		for _, x := range xs {
+			q = append(q, leanStr(x))
+		}
+		return "[" + strings.Join(q, ", ") + "]"
+	}
+	for i, g := range guardRows {
+		sep := ","
+		if i == len(guardRows)-1 {
+			sep = ""
+		}
+		sb.WriteString(fmt.Sprintf("  (%s, %s, %s, %s)%s\n", leanStr(g.emitter), leanStr(g.rule), lst(g.eq), lst(g.sw), sep))
 	}
 	sb.WriteString("]\n/-- the 3.0 converter returns before touching `schema.Value` when it is nil -/\n")
 	sb.WriteString("def nilValueGuard30 : Bool := " + leanBool(hasNilValueGuard("generator/swagen/swagen30/validatation_converter.go", "BuildSchemaValidation")) + "\n")
